@@ -1,5 +1,5 @@
 HOOK_COMMITS = ["33a37d7"]
-FIX_COMMITS = ["547ab85", "bf5a7b0", "e00c6fc", "c4f8c04"]
+FIX_COMMITS = ["547ab85", "bf5a7b0", "e00c6fc", "c4f8c04", "8b0ff5b"]
 NOTES = ("All checks are property-based tests / fuzz targets over the real go-dcp code built from /repo's working tree "
          "(build tag verif). Exit 2 = inconclusive (build/infrastructure/budget), never a pass. See DESIGN.md.")
 NOT_APPLICABLE = {}
@@ -134,5 +134,12 @@ META = {
         text="The fail-stop is a panic on a library goroutine, so every case is a process; ping timestamps, exit status and Stop() latency are "
              "compared with the statement. The select race 'tick vs. cancel' is provoked with a 100 us interval.",
         note="One-sided timing bounds with >= 10 % slack around the library's hard-coded 1 s retry wait.",
+    ),
+    "C20": dict(
+        technique="rapid-generated completion/deadline orders on a fake PendingOp + per-request fault injection (status / delay / silence / drop) on the simulated node for every operation wrapper, outcome compared with the node's own reply log",
+        text="Each wrapper is called over real gocbcore agents while the node answers its requests according to a generated behaviour; the "
+             "returned error is compared with what the node actually confirmed (its reply log), and return times with the deadline. One "
+             "defect found this way (GetVBucketSeqNos ignoring the callback error) was repaired (fix: commit 8b0ff5b).",
+        note="Wrappers with hard-coded 60 s deadlines are exercised with prompt / error / drop only (silence would cost a minute per case); cbMetadata.Load's fail-stop on errors is C15's; membership operations use the same helpers.",
     ),
 }
